@@ -948,3 +948,78 @@ pub fn rename_view<S: Src, K: Skel>(s: &mut S) -> Verdict {
     vcover!(s, true, "end");
     Ok(())
 }
+
+// ------------------------------------------------------------------ programs found missing by seeded changes
+
+/// delete the question, then insert a new question: it must be the first
+/// record again and nothing else may move.
+pub fn reinsert_question<S: Src, K: Skel>(s: &mut S) -> Verdict {
+    let p = K::build(s);
+    let (recs, n) = recs_of::<K>();
+    let mut pp = parse_ok::<S>(&p)?;
+    let mut ok = false;
+    let mut cur = pp.into_iter_question();
+    while let Some(mut it) = cur {
+        ok = it.delete().is_ok();
+        break;
+    }
+    vassert!(ok, "delete on the question succeeds");
+    let rr = match r#gen::RR::new_question(b"nq.zz", Type::AAAA, Class::IN) {
+        Ok(rr) => rr,
+        Err(_) => {
+            vassert!(false, "building the question succeeds");
+            return Ok(());
+        }
+    };
+    let rrb = rr.packet.clone();
+    let res = pp.insert_rr(Section::Question, rr);
+    cut_errors(0);
+    vassert!(res.is_ok(), "insert_rr(Question) succeeds on a packet without a question");
+    let after = pp.packet().to_vec();
+    check_view(&mut pp)?;
+    let mut alay = spec::Layout::new();
+    if spec::layout_of(&after, &mut alay) != spec::Acc::Yes {
+        vassert!(false, "re-inserting the question: the resulting bytes are well-formed");
+        return Ok(());
+    }
+    vassert!(alay.nrec == n, "re-inserting the question: same number of records");
+    vassert!(alay.recs[0].start == 12 && spec::bytes_eq(&after, 12, &rrb, 0, rrb.len()), "re-inserting the question: the new question is the first record");
+    let mut i = 1;
+    while i < n {
+        vassert!(spec::rec_eq(&p, &recs[i], &after, &alay.recs[i], true), "re-inserting the question: every other record is unchanged, in order");
+        i += 1;
+    }
+    vcover!(s, true, "end");
+    Ok(())
+}
+
+/// iterator.uncompress() (the object then says "no pointers"), then rename
+/// through the object: the view, including the pointer flag, must match.
+pub fn rename_after_uncompress<S: Src, K: Skel>(s: &mut S) -> Verdict {
+    let p = K::build_cl(s);
+    let mut pp = parse_ok::<S>(&p)?;
+    let mut ok = false;
+    let found = cursor_at!(pp, 1, 0, it, {
+        ok = it.uncompress().is_ok();
+    });
+    vassert!(found && ok, "uncompress() through a cursor succeeds");
+    vassert!(!pp.maybe_compressed, "after in-place decompression the object reports no pointers");
+    let q = &K::RECS[0];
+    let mut w = [0u8; 256];
+    let wl = spec::name_wire(&p, q.start, &mut w);
+    let mut cur = 0;
+    let mut last = 0;
+    let mut g = 0;
+    while g < 130 && cur < wl && w[cur] != 0 {
+        g += 1;
+        last = cur;
+        cur += w[cur] as usize + 1;
+    }
+    let source = &w[last..wl];
+    let target: &[u8] = &[3, b'n', b'e', b'w', 2, b't', b'g', 0];
+    let r = pp.rename_with_raw_names(target, source, true);
+    vassert!(r.is_ok(), "rename_with_raw_names succeeds");
+    check_view(&mut pp)?;
+    vcover!(s, true, "end");
+    Ok(())
+}
